@@ -109,3 +109,32 @@ def replay_api(ctx, res, v, prop):
     for b in out["tags"].get("BAD", []):
         if b["rule"].startswith(RULES[prop]):
             res.violation({"rule": b["rule"], "detail": b["detail"], "pattern": v["pattern"], "input_text": v["input_text"]})
+
+
+def attribute_api(ctx, viols, gate, prop):
+    """re-records the violating (pattern, input) cases with a rewrite gate on; a violation is explained by the gate's
+    finding when no rule of this property is rejected for that case any more"""
+    keyed, cases = {}, []
+    for v in viols:
+        if "p" not in v or "input_bytes" not in v:
+            continue
+        key = json.dumps([v["p"], v["options"], v["dialect"], v["rtl"], v["input_bytes"]])
+        if key not in keyed:
+            keyed[key] = len(cases) + 1
+            cases.append({"p": v["p"], "o": v["options"], "dia": v["dialect"], "rtl": v["rtl"], "exact": v["exact"],
+                          "b": v["input_bytes"], "repls": v.get("repls") or [[36, 38]]})
+    if not cases:
+        return []
+    cpath = os.path.join(ctx.dir, f"attr-{gate}.json")
+    json.dump(cases, open(cpath, "w"))
+    path = os.path.join(ctx.dir, f"attr-{gate}.ndjson")
+    ctx.run_vh(["record-api", "-case", cpath, "-o", path], env_extra={"VERIF_GATES": gate})
+    out = ctx.tlc("Obs_API", "Obs.cfg", env_extra={"VERIF_OBS": path})
+    still_bad = {b["id"] for b in out["tags"].get("BAD", []) if b["rule"].startswith(RULES[prop])}
+    res = []
+    for v in viols:
+        if "p" in v and "input_bytes" in v:
+            key = json.dumps([v["p"], v["options"], v["dialect"], v["rtl"], v["input_bytes"]])
+            if keyed[key] not in still_bad:
+                res.append(v)
+    return res
